@@ -1,4 +1,5 @@
 import Pcore.Proofs.HashImpl
+import Pcore.Proofs.ArrayImpl
 /-!
 Histories over a pool of hashes: every step of the implementation model preserves the invariant of every
 hash in the pool and answers what the specification machine answers.
@@ -172,5 +173,117 @@ theorem stepH_refines (key : α → κ) (pool : List (Hash α β κ)) (hp : Pool
         simp only [hm, Option.map_some]
         refine ⟨hp.set hni, ?_⟩
         rw [absPool_set', hne]
+  | slice i x y =>
+    simp only [stepHImpl, stepHSpec, absPool_get]
+    cases hg : pool[i]? with
+    | none => exact ⟨hp, rfl⟩
+    | some h =>
+      have hi := hp.get hg
+      by_cases hb : x ≤ y ∧ y ≤ h.entries.length
+      · simp only [Hash.slice, hb, and_self, if_true, Option.map_some]
+        refine ⟨hp.append (HInv.wrap ?_), by simp [absPool_append, Hash.wrap]⟩
+        have hsub : ((h.entries.drop x).take (y - x)).Sublist h.entries :=
+          (List.take_sublist _ _).trans (List.drop_sublist _ _)
+        exact List.Nodup.sublist (hsub.map _) hi.1
+      · simp only [Hash.slice, hb, if_false, Option.map_some]
+        exact ⟨hp, by simp [hb]⟩
+  | select i ks =>
+    simp only [stepHImpl, stepHSpec, absPool_get]
+    cases hg : pool[i]? with
+    | none => exact ⟨hp, rfl⟩
+    | some h =>
+      have hi := hp.get hg
+      have he : (h.selectPairs (fun e => (ks.map key).contains (key e.1)) : Hash α β κ).entries =
+          h.entries.filter (fun e => (ks.map key).contains (key e.1)) := by
+        simp [Hash.selectPairs, Hash.wrap, Arr.rejectLoop_eq]
+      simp only [Option.map_some]
+      refine ⟨hp.append ⟨?_, by simp [Hash.selectPairs, Hash.wrap]⟩, by rw [absPool_append, he]⟩
+      rw [he]
+      exact List.Nodup.sublist (List.filter_sublist.map _) hi.1
+  | reject i ks =>
+    simp only [stepHImpl, stepHSpec, absPool_get]
+    cases hg : pool[i]? with
+    | none => exact ⟨hp, rfl⟩
+    | some h =>
+      have hi := hp.get hg
+      have he : (h.rejectPairs (fun e => (ks.map key).contains (key e.1)) : Hash α β κ).entries =
+          OMap.deleteAll key h.entries (ks.map key) := by
+        simp [Hash.rejectPairs, Hash.wrap, Arr.rejectLoop_eq, OMap.deleteAll]
+      simp only [Option.map_some]
+      refine ⟨hp.append ⟨?_, by simp [Hash.rejectPairs, Hash.wrap]⟩, by rw [absPool_append, he]⟩
+      rw [he]
+      exact nodup_deleteAll hi.1 _
+  | sort i le =>
+    simp only [stepHImpl, stepHSpec, absPool_get]
+    cases hg : pool[i]? with
+    | none => exact ⟨hp, rfl⟩
+    | some h =>
+      have hi := hp.get hg
+      simp only [Option.map_some]
+      refine ⟨hp.append (HInv.wrap ?_), by simp [absPool_append, Hash.sort, Hash.wrap]⟩
+      have hperm : (keys key (h.entries.mergeSort (fun a b => le a.1 b.1))).Perm (keys key h.entries) :=
+        (List.mergeSort_perm _ _).map _
+      exact hperm.nodup_iff.mpr hi.1
+  | eachSlice i n =>
+    simp only [stepHImpl, stepHSpec, absPool_get]
+    cases hg : pool[i]? with
+    | none => exact ⟨hp, rfl⟩
+    | some h =>
+      by_cases hn : n < 1
+      · simp [Hash.eachSlice, Arr.eachSlice, hn, hp]
+      · simp [Hash.eachSlice, Arr.eachSlice_eq n hn, hn, hp]
+
+/-! ### whole histories (fixed model; `Props/C09.lean` restates these for the fact-driven model) -/
+section
+variable (key : α → κ)
+
+/-- every hash of the pool keeps the invariant (no two equal keys, cached index = index of the entries) through ANY
+    history whose literals do not repeat a key -/
+theorem hash_inv (ops : List (HOp α β)) (hl : ∀ op ∈ ops, LitOK key op) (pool : List (Hash α β κ))
+    (hp : PoolInv key pool) : PoolInv key (runHImpl key pool ops).2 := by
+  induction ops generalizing pool with
+  | nil => exact hp
+  | cons op ops ih =>
+    exact ih (fun o ho => hl o (by simp [ho])) _ (stepH_refines key pool hp op (hl op (by simp))).1
+
+/-- every answer of every step (lookups, membership, iteration order) equals the specification's, and so does the
+    content of every hash of the pool afterwards — for ANY history whose literals do not repeat a key -/
+theorem hash_refine_partial (ops : List (HOp α β)) (hl : ∀ op ∈ ops, LitOK key op) (pool : List (Hash α β κ))
+    (hp : PoolInv key pool) :
+    (runHImpl key pool ops).1 = (runHSpec key (absPool pool) ops).1 ∧
+      absPool (runHImpl key pool ops).2 = (runHSpec key (absPool pool) ops).2 := by
+  induction ops generalizing pool with
+  | nil => exact ⟨rfl, rfl⟩
+  | cons op ops ih =>
+    have hs := stepH_refines key pool hp op (hl op (by simp))
+    have := ih (fun o ho => hl o (by simp [ho])) _ hs.1
+    simp only [runHImpl, runHSpec, hs.2]
+    exact ⟨by rw [this.1], this.2⟩
+
+omit [DecidableEq κ] in
+theorem stepHSpec_ne_fault [DecidableEq κ] (pool : List (List (α × β))) (op : HOp α β) : (stepHSpec key pool op).2 ≠ .fault := by
+  cases op <;> simp only [stepHSpec] <;> (repeat' split) <;> simp
+
+/-- no step of such a history ends in a Go runtime fault (slice bounds, index out of range) -/
+theorem hash_no_fault (ops : List (HOp α β)) (hl : ∀ op ∈ ops, LitOK key op) (pool : List (Hash α β κ))
+    (hp : PoolInv key pool) : ∀ o ∈ (runHImpl key pool ops).1, o ≠ .fault := by
+  rw [(hash_refine_partial key ops hl pool hp).1]
+  generalize absPool pool = sp
+  induction ops generalizing sp with
+  | nil => simp [runHSpec]
+  | cons op ops ih =>
+    intro o ho
+    simp only [runHSpec, List.mem_cons] at ho
+    rcases ho with rfl | ho
+    · exact stepHSpec_ne_fault key sp op
+    · exact ih (fun o ho => hl o (by simp [ho])) _ o ho
+
+/-- `valueIndex()` answers exactly the positions: `index k = some i ↔ key entries[i] = k` -/
+theorem hash_index_iff {h : Hash α β κ} (hi : HInv key h) (k : κ) (i : Nat) :
+    GoMap.get (h.valueIndex key).2 k = some i ↔ (h.entries[i]?).map (fun e => key e.1) = some k := by
+  rw [hi.valueIndex.2.2, idx_iff hi.1]
+
+
+end
 
 end Pcore.Coll
